@@ -14,10 +14,12 @@
  *   R <idx> sched=<s> open=.. reads=.. last=.. rclose=.. content=<blob> ...
  */
 #include "drv.h"
+#include "scen.h"
 #include <sys/stat.h>
 
 typedef struct {
     wcfg cfg; blob content; char *scheds; int closefds; char *ops; char *save;
+    deviation plan[8]; int nplan; int trace;   /* C12: environment answers for the write path (output and temp file) */
 } wcase;
 typedef struct { wcase *cases; int n; } wctx;
 
@@ -55,6 +57,12 @@ static void run_one(int idx, FILE *out, void *vctx) {
     zckCtx *zck = zck_create();
     if(!zck) die("zck_create");
     fprintf(out, "W %d", idx);
+    if(k->nplan || k->trace) {
+        env_reset();
+        env_role(ofd, ROLE_OUTPUT);
+        env_set_plan(k->plan, k->nplan);
+        env_enable(true);
+    }
     int init = zck_init_write(zck, ofd);
     fprintf(out, " init=%d", init);
     bool ok = init;
@@ -96,6 +104,11 @@ static void run_one(int idx, FILE *out, void *vctx) {
     const char *e = zck_get_error(zck);
     put_hex(out, e, strlen(e) > 60 ? 60 : strlen(e));
     zck_free(&zck);
+    if(k->nplan || k->trace) {
+        env_enable(false);
+        fprintf(out, " mismatch=%d calls=%d", env_plan_mismatch, env_calls());
+        if(k->trace) env_print_trace(out);
+    }
     blob f = fd_contents(ofd);
     if(k->save && f.n > 4096) save_blob(k->save, &f);
     put_blob(out, "file", f.p, f.n);
@@ -145,6 +158,8 @@ int cmd_writehist(FILE *job, FILE *out) {
         else if(!strcmp(t[0], "read")) cur.scheds = strdup(t[1]);
         else if(!strcmp(t[0], "closefds")) cur.closefds = atoi(t[1]);
         else if(!strcmp(t[0], "save")) cur.save = strdup(t[1]);
+        else if(!strcmp(t[0], "plan")) cur.nplan = parse_plan(t[1], cur.plan, 8);
+        else if(!strcmp(t[0], "trace")) cur.trace = atoi(t[1]);
         else if(!strcmp(t[0], "chunk")) chunk = atoi(t[1]);
         else if(!strcmp(t[0], "timeout")) timeout = atoi(t[1]);
         else if(!strcmp(t[0], "hist")) {
